@@ -53,24 +53,31 @@ Qed.
 (** every argument of a freshly built command is complete: the [expect]s on
     [get_num_args()] (parser.rs 1029, 1333, arg_matcher needs_more_vals) and on the value
     parser (1101) cannot fail *)
+Lemma bs_deprecated_arg_complete c h a : arg_complete a -> arg_complete (bs_deprecated_arg c h a).
+Proof.
+  unfold arg_complete, bs_deprecated_arg. intros H.
+  repeat match goal with |- context [if ?x then _ else _] => destruct x end; cbn; exact H.
+Qed.
+
+Lemma c_args_bs_mark c : c_args (bs_mark c) = c_args c.
+Proof. reflexivity. Qed.
+Lemma c_args_bs_deprecated c :
+  c_args (bs_deprecated c) =
+  map (bs_deprecated_arg c (fold_left (fun m a => match a_index a with Some n => N.max m n | None => m end) (c_args c) 0))
+      (c_args c).
+Proof. reflexivity. Qed.
+Lemma c_args_bs_args c : c_args (bs_args c) = fst (build_args (c_args c) (c_groups c) 1).
+Proof. reflexivity. Qed.
+
 Theorem build_self_args_complete c a :
   s_built (c_set c) = false -> In a (c_args (build_self c)) -> arg_complete a.
 Proof.
   intros Hb. unfold build_self. rewrite Hb.
-  (* peel the settings-only updates: they do not touch c_args until the help/version pushes *)
-  match goal with |- In a (c_args (?last <| c_set := _ |>)) -> _ => change (In a (c_args last) -> arg_complete a) end.
-  match goal with |- In a (c_args (?x <| c_args := map ?f (c_args ?y) |>)) -> _ =>
-    change (In a (map f (c_args y)) -> arg_complete a) end.
+  rewrite c_args_bs_mark, c_args_bs_deprecated.
   intros Hin. apply in_map_iff in Hin. destruct Hin as [b [<- Hb']].
-  match type of Hb' with In b (c_args (let '(args, groups) := ?ba in _)) =>
-    destruct ba as [args groups] eqn:Eba end.
-  cbn in Hb'.
-  assert (Hcb : arg_complete b).
-  { apply (build_args_complete _ _ _ b). rewrite Eba. exact Hb'. }
-  unfold arg_complete in *.
-  repeat match goal with
-         | |- context [if ?x then _ else _] => destruct x
-         end; cbn; exact Hcb.
+  apply bs_deprecated_arg_complete.
+  rewrite c_args_bs_args in Hb'.
+  apply (build_args_complete _ _ _ b Hb').
 Qed.
 
 (** * The short-cluster walk terminates within its fuel *)
